@@ -920,7 +920,8 @@ func genFRTrunc(w *bufio.Writer, thorough bool, r *Rng) {
 			if c%2 == 0 {
 				ops = fmt.Sprintf("r:%d r:%d r:%d r:9", r.Pick([]int{100, bf.bs, 5000}), bf.clen+bf.bs, bf.clen+bf.bs)
 			}
-			fmt.Fprintf(w, "R %d %s#%d 0 -1 0 %s P:%s\n", r.Pick([]int{1, 1, 4}), bf.ref, c, ops, bf.content)
+			// the last source field 4 = the source is also an io.Seeker (a file, a bytes.Reader): seeking past its end succeeds
+			fmt.Fprintf(w, "R %d %s#%d 0 -1 %d %s P:%s\n", r.Pick([]int{1, 1, 4}), bf.ref, c, r.Pick([]int{0, 0, 4}), ops, bf.content)
 		}
 	}
 }
@@ -1041,8 +1042,8 @@ func genFRHostile(w *bufio.Writer, thorough bool, r *Rng) {
 	}
 	fmt.Fprintf(w, "R 1 %s 0 -1 0 wt:-1\n", saveBlob("legacyrep", rep.Bytes()))
 	rep.Reset()
-	for i := 0; i < reps/4; i++ {
-		rep.Write(le32b(0x184D2A50))
+	for i := 0; i < 2*reps; i++ {
+		rep.Write(le32b(0x184D2A50 + uint32(i%16)))
 		rep.Write(le32b(0))
 	}
 	rep.Write(valid)
